@@ -125,6 +125,12 @@ class Repo:
                 out = inline_module_constants(out, mc[rel])
                 from .normalise import unroll_literal_loops, simple_members, inline_simple_members
                 out = unroll_literal_loops(out)
+                if '.' not in qual:
+                    from .normalise import module_functions, inline_module_functions
+                    mf = self.__dict__.setdefault('_module_funcs', {})
+                    if rel not in mf:
+                        mf[rel] = module_functions(self.module(rel), lambda nm: f'{rel}::{nm}' in roles())
+                    out = inline_module_functions(out, mf[rel])
                 if '.' in qual:
                     cname = qual.rsplit('.', 1)[0]
                     sm = self.__dict__.setdefault('_simple_members', {})
